@@ -100,9 +100,60 @@ def basis_spec(fam, dim, args, x, der):
     return span, Integer(3), (lambda j: CB1(span, off, dx, j)), d
 
 
+def _ends(block):
+    """does every path through the block end with return / raise?"""
+    if not block:
+        return False
+    last = block[-1]
+    if isinstance(last, (ast.Return, ast.Raise)):
+        return True
+    if isinstance(last, ast.If):
+        return _ends(last.body) and _ends(last.orelse)
+    return False
+
+
+def _guards_to_else(stmts):
+    """`if c: ...; return` followed by more statements reads as `if c: ... else: <the rest>` (no statement is executed or reordered)"""
+    out = []
+    for k, st in enumerate(stmts):
+        if isinstance(st, ast.If):
+            body, orelse = _guards_to_else(st.body), _guards_to_else(st.orelse)
+            rest = stmts[k + 1:]
+            if rest and _ends(body) and not _ends(orelse):
+                out.append(ast.copy_location(ast.If(test=st.test, body=body, orelse=orelse + _guards_to_else(rest)), st))
+                return out
+            if rest and _ends(orelse) and not _ends(body):
+                out.append(ast.copy_location(ast.If(test=st.test, body=body + _guards_to_else(rest), orelse=orelse), st))
+                return out
+            out.append(ast.copy_location(ast.If(test=st.test, body=body, orelse=orelse), st))
+            if _ends(out):
+                return out
+            continue
+        if isinstance(st, (ast.For, ast.While, ast.With)):
+            st = clone(st)
+            st.body = _guards_to_else(st.body)
+            if getattr(st, "orelse", None):
+                st.orelse = _guards_to_else(st.orelse)
+        out.append(st)
+        if isinstance(st, (ast.Return, ast.Raise)):
+            return out
+    return out
+
+
+def structured(fn):
+    """copy of a function definition whose guard clauses (early returns) are written as if/else: the symbolic extraction reads a
+    conditional with a value on each arm"""
+    if not any(isinstance(n, ast.Return) for st in fn.body[:-1] for n in ast.walk(st)):
+        return fn
+    new = clone(fn)
+    new.body = _guards_to_else(new.body)
+    ast.fix_missing_locations(new)
+    return new
+
+
 def check_evaluator(chk, rel, name, rule="E4-evaluator"):
     mod = chk.mod(rel)
-    fn = mod.func(name)
+    fn = structured(mod.func(name))
     chk.functions.add(f"{rel}:{name}")
     fam = "cu" if "cu_" in name else "nu"
     two_d = "_2d_" in name
@@ -152,10 +203,22 @@ def check_evaluator(chk, rel, name, rule="E4-evaluator"):
         except (Undecided, KeyError, AttributeError) as e:
             chk.ob(rule, fn, label, None, f"comparison not decidable: {type(e).__name__}: {e} (parameter or output renamed?)", file=rel, func=name)
             continue
+        extra = ""
+        if not ok and kind != "scalar":
+            # the output cell as it was before the call (uninterpreted read of the output array)
+            out_name = "y" if not two_d else "z"
+            try:
+                before = args[out_name].fn(*([i] if (not two_d or kind == "vector") else [i, j]))
+                if sum_equal(sp.sympify(got) - before, want):
+                    extra = (f": the routine accumulates onto `{before}` without resetting it first - the result is the previous content of "
+                             "the output array plus the spline value (wrong for every output array that is not zero-filled, e.g. a reused "
+                             "work array)")
+            except Exception:
+                extra = ""
         chk.ob(rule, fn, label, ok,
                "value = sum over the degree+1 (x degree+1) coefficients in the window [span-degree, span] of coefficient x basis "
                "function, with the " + ("derivative" if (d1 or d2) else "value") + " routine and the knots/degree/point/span of the "
-               "same dimension" if ok else f"extracted contraction {str(got)[:260]} differs from {str(want)[:260]}",
+               "same dimension" if ok else (extra[2:] + "; " if extra else "") + f"extracted contraction {str(got)[:260]} differs from {str(want)[:260]}",
                file=rel, func=name, facts={"code": str(got)[:400], "spec": str(want)[:400]})
 
 
@@ -243,7 +306,7 @@ def cardinal_cubic(chk):
     fs = mod.func("cu_find_span")
     ok, whyspan = None, "span search not extractable"
     try:
-        exs = SymExec(fs, make_args(fs), calls={})
+        exs = SymExec(structured(fs), make_args(fs), calls={})
         exs.run()
         ret = exs.ret
         xs, xmin_s, dx_s, nc_s = (exs.env[k] if k in exs.env else sp.Symbol(k) for k in ("x", "xmin", "dx", "ncells"))
@@ -632,6 +695,12 @@ class Specialiser:
             self.opaque.append((callee.name, "return inside a loop or before the end"))
             return None
         self.inlined.append(callee.name)
+        # an actual argument that is itself a call of an own method is written back too
+        pre2 = []
+        for x in pre:
+            got = self._inline(x, ctx) if isinstance(x.value, ast.Call) and self._own_call(x.value) is not None else None
+            pre2 += got if got is not None else [x]
+        pre = pre2
         for x in pre + res:
             ast.fix_missing_locations(x)
         return pre + res
@@ -815,6 +884,378 @@ MOVED_WHY = (": the value returned is that of the piecewise polynomial at anothe
              "onto the left end takes the left end's value and slope, which differ unless the coefficients happen to be wrapped)")
 
 
+# --------------------------------------------------------------------------
+# which array reaches a kernel as its knots, on which kind of space: constructor, properties and dispatch test read together
+# --------------------------------------------------------------------------
+def _raises(block):
+    """does every path through the block end with `raise`?"""
+    if not block:
+        return False
+    last = block[-1]
+    if isinstance(last, ast.Raise):
+        return True
+    if isinstance(last, ast.If):
+        return _raises(last.body) and _raises(last.orelse)
+    return False
+
+
+def _expr(text):
+    return ast.parse(text, mode="eval").body
+
+
+class ClassModel:
+    """what the constructor of a class leaves behind, read off its (specialised) syntax tree: attribute -> [(conditions, value)],
+    parameters kept as attributes, preconditions (assertions, `if c: raise`).  conditions = [(test, polarity)]"""
+
+    def __init__(self, mod, cls_name):
+        self.defs, self.stored, self.pre, self.ok, self.params = {}, {}, [], False, []
+        try:
+            init = mod.methods(cls_name).get("__init__")
+            if init is None:
+                return
+            body = Specialiser(mod, cls_name).run("__init__")
+        except AnalysisError:
+            return
+        self.params = [a.arg for a in init.args.args[1:]] + [a.arg for a in init.args.kwonlyargs]
+        cnt = _stores(init)
+        raw = []
+        for st, guards in walk_guarded(body):
+            conds = []
+            for t, pol, node in guards:
+                other = node.orelse if pol else node.body
+                if not _raises(other):
+                    conds.append((t, pol))
+            if isinstance(st, ast.If):
+                if _raises(st.body):
+                    self.pre.append((st.test, False))
+                elif _raises(st.orelse):
+                    self.pre.append((st.test, True))
+            if isinstance(st, ast.Assert) and not conds:
+                self.pre.append((st.test, True))
+            if isinstance(st, ast.Assign):
+                for t in st.targets:
+                    pairs = [(t, st.value)]
+                    if isinstance(t, ast.Tuple) and isinstance(st.value, ast.Tuple) and len(t.elts) == len(st.value.elts):
+                        pairs = list(zip(t.elts, st.value.elts))
+                    for a, v in pairs:
+                        if isinstance(a, ast.Attribute) and src(a.value) == "self":
+                            raw.append((src(a), conds, v))
+                        elif isinstance(a, ast.Tuple):
+                            for k, el in enumerate(a.elts):
+                                if isinstance(el, ast.Attribute) and src(el.value) == "self":
+                                    raw.append((src(el), conds, ast.Subscript(value=v, slice=ast.Constant(value=k), ctx=ast.Load())))
+        for name, conds, v in raw:
+            if not conds and isinstance(v, ast.Name) and v.id in self.params and cnt.get(v.id, 0) == 0:
+                self.stored.setdefault(v.id, name)
+        env = {p_: _expr(a) for p_, a in self.stored.items()}
+
+        def sub(e):
+            return _Sub(env).visit(clone(e))
+        for name, conds, v in raw:
+            self.defs.setdefault(name, []).append(([(sub(t), pol) for t, pol in conds], sub(v)))
+        self.pre = [(sub(t), pol) for t, pol in self.pre]
+        self.ok = True
+
+
+class FamilyModel:
+    """For a spline class: which expression an attribute / property chain denotes on each kind of space.
+
+    Atoms are, for every basis B the spline holds, `B is cubic uniform` and `B is periodic` (the attributes of BSplines the
+    properties `cubic_uniform` / `periodic` return).  An expression is resolved through the attributes its constructor stores and
+    through the properties of BSplines into alternatives guarded by conditions over these atoms; a truth assignment of the atoms that
+    satisfies the constructor's preconditions selects one alternative.  Nothing is executed."""
+
+    def __init__(self, smod, cls_name):
+        self.smod, self.cls_name = smod, cls_name
+        self.bases = ["self._basis"] if cls_name == "Spline1D" else ["self._basis1", "self._basis2"]
+        self.own = ClassModel(smod, cls_name)
+        self.bs = ClassModel(smod, "BSplines")
+        self._props = {}
+        self.ok = self.own.ok and self.bs.ok
+        self.cu, self.per, self.knots_leaf = {}, {}, {}
+        for B in self.bases:
+            for table, attr in ((self.cu, "cubic_uniform"), (self.per, "periodic"), (self.knots_leaf, "knots")):
+                alts = self.alts(_expr(f"{B}.{attr}"))
+                if len(alts) == 1 and not alts[0][0] and src(alts[0][1]).startswith(B + "."):
+                    table[B] = src(alts[0][1])
+                else:
+                    self.ok = False
+        self.atoms = [self.cu.get(B) for B in self.bases] + [self.per.get(B) for B in self.bases]
+
+    # -- properties
+    def prop(self, cls, attr):
+        key = (cls, attr)
+        if key not in self._props:
+            out = None
+            try:
+                m = self.smod.methods(cls).get(attr)
+            except AnalysisError:
+                m = None
+            if m is not None and any(src(d) == "property" for d in m.decorator_list):
+                try:
+                    body = Specialiser(self.smod, cls).run(attr)
+                    out = [([(t, pol) for t, pol, _n in guards], st.value) for st, guards in walk_guarded(body)
+                           if isinstance(st, ast.Return) and st.value is not None]
+                    loc = _stores(m)
+                    if any(isinstance(n, ast.Name) and n.id in loc for _c, v in out for n in ast.walk(v)):
+                        out = None          # the value is computed through locals: not a reference
+                except AnalysisError:
+                    out = None
+            self._props[key] = out or None
+        return self._props[key]
+
+    def alts(self, e, depth=0):
+        """[(conditions, leaf expression)]"""
+        if depth > 8 or not isinstance(e, ast.Attribute):
+            return [([], e)]
+        s_ = src(e)
+        if s_ in self.bases:
+            return [([], e)]
+        if src(e.value) == "self":
+            if s_ in self.own.defs:
+                out = []
+                for conds, v in self.own.defs[s_]:
+                    if src(v) == s_:
+                        return [([], e)]
+                    for c2, leaf in self.alts(v, depth + 1):
+                        out.append((conds + c2, leaf))
+                return out
+            pr = self.prop(self.cls_name, e.attr)
+            if pr is not None:
+                out = []
+                for conds, v in pr:
+                    for c2, leaf in self.alts(v, depth + 1):
+                        out.append((conds + c2, leaf))
+                return out
+            return [([], e)]
+        base = self.alts(e.value, depth + 1)
+        if len(base) == 1 and not base[0][0] and src(base[0][1]) in self.bases:
+            B = base[0][1]
+            pr = self.prop("BSplines", e.attr)
+            if pr is not None:
+                out = []
+                for conds, v in pr:
+                    cB = [(_Sub({"self": B}).visit(clone(t)), pol) for t, pol in conds]
+                    for c2, leaf in self.alts(_Sub({"self": B}).visit(clone(v)), depth + 1):
+                        out.append((cB + c2, leaf))
+                return out
+            return [([], ast.Attribute(value=clone(B), attr=e.attr, ctx=ast.Load()))]
+        return [([], e)]
+
+    def pick(self, e, a, depth=0):
+        """the alternative of `e` selected by the assignment `a` (leaf expression), or None"""
+        chosen = []
+        for conds, leaf in self.alts(e):
+            vals = [self.truth(t, a, depth + 1) for t, _p in conds]
+            if any(v is None for v in vals):
+                return None
+            if all(v == pol for v, (_t, pol) in zip(vals, conds)):
+                chosen.append(leaf)
+        return chosen[0] if len(chosen) == 1 else None
+
+    def truth(self, t, a, depth=0):
+        if depth > 12:
+            return None
+        if isinstance(t, ast.Constant) and isinstance(t.value, bool):
+            return t.value
+        if isinstance(t, ast.UnaryOp) and isinstance(t.op, ast.Not):
+            v = self.truth(t.operand, a, depth + 1)
+            return None if v is None else not v
+        if isinstance(t, ast.BoolOp):
+            vs = [self.truth(x, a, depth + 1) for x in t.values]
+            if isinstance(t.op, ast.And):
+                return False if any(v is False for v in vs) else (True if all(v is True for v in vs) else None)
+            return True if any(v is True for v in vs) else (False if all(v is False for v in vs) else None)
+        if isinstance(t, ast.Compare) and len(t.ops) == 1 and isinstance(t.ops[0], (ast.Eq, ast.Is, ast.NotEq, ast.IsNot)):
+            x, y = self.truth(t.left, a, depth + 1), self.truth(t.comparators[0], a, depth + 1)
+            if x is None or y is None:
+                return None
+            return (x == y) if isinstance(t.ops[0], (ast.Eq, ast.Is)) else (x != y)
+        if isinstance(t, ast.Attribute):
+            leaf = self.pick(t, a, depth + 1)
+            if leaf is None:
+                return None
+            if src(leaf) in a:
+                return a[src(leaf)]
+            if src(leaf) != src(t):
+                return self.truth(leaf, a, depth + 1)
+        return None
+
+    def mentions_atoms(self, t):
+        for n in ast.walk(t):
+            if isinstance(n, ast.Attribute):
+                for _c, leaf in self.alts(n):
+                    for m in ast.walk(leaf):
+                        if isinstance(m, ast.Attribute) and src(m) in self.atoms:
+                            return True
+        return False
+
+    def assignments(self):
+        """[(assignment, certain?)] satisfying the constructor's preconditions; certain = every precondition over the atoms was decided"""
+        import itertools
+        out = []
+        for bits in itertools.product((True, False), repeat=len(self.atoms)):
+            a = dict(zip(self.atoms, bits))
+            feasible, certain = True, True
+            for t, pol in self.own.pre:
+                v = self.truth(t, a)
+                if v is None:
+                    if self.mentions_atoms(t):
+                        certain = False
+                elif v != pol:
+                    feasible = False
+                    break
+            if feasible:
+                out.append((a, certain))
+        return out
+
+    def describe(self, a):
+        parts = []
+        for B in self.bases:
+            parts.append(f"`{B}` is {'cubic-uniform' if a[self.cu[B]] else 'general'}, {'periodic' if a[self.per[B]] else 'not periodic'}")
+        return "when " + " and ".join(parts)
+
+    # -- what BSplines keeps as `_knots`
+    def stored_kind(self, cu_val):
+        defs = self.bs.defs.get("self._knots")
+        if not defs:
+            return None
+        tmp = {"self._cubic_uniform_splines": cu_val, "self.cubic_uniform": cu_val}
+        chosen = []
+        for conds, v in defs:
+            vals = []
+            for t, pol in conds:
+                tv, sw = _polarity(t)
+                x = tmp.get(src(tv))
+                vals.append(None if x is None else ((not x if sw else x) == pol))
+            if any(v_ is None for v_ in vals):
+                return None
+            if all(vals):
+                chosen.append(v)
+        if len(chosen) != 1:
+            return None
+        v = chosen[0]
+        if isinstance(v, ast.Call) and src(v.func) in ("np.array", "np.asarray") and v.args and isinstance(v.args[0], (ast.List, ast.Tuple)) and \
+                len(v.args[0].elts) == 4:
+            return "compact"
+        if isinstance(v, ast.Name) and self.bs.params and v.id == self.bs.params[0]:
+            return "full"
+        return None
+
+    def make_knots_clamps(self):
+        """does make_knots repeat the end points when `periodic` is false? (read off its else-branch)"""
+        try:
+            mk = self.smod.func("make_knots")
+        except AnalysisError:
+            return None
+        for n in ast.walk(mk):
+            if isinstance(n, ast.If) and src(_polarity(n.test)[0]) == "periodic":
+                arm = n.body if _polarity(n.test)[1] else n.orelse
+                vals = [src(st.value) for st in arm if isinstance(st, ast.Assign) and isinstance(st.targets[0], ast.Subscript)]
+                if any(v_ in ("breaks[0]", "breaks[-1]") for v_ in vals):
+                    return True
+        return None
+
+    def knots_kind(self, leaf, a):
+        """-> (kind, basis, text): kind 'compact' (xmin, xmax, dx, ncells) | 'full' (a knot sequence of the space) | 'clamped' / 'wrapped'
+        (a rebuilt sequence that is not the one the space is defined on) | None"""
+        s_ = src(leaf)
+        for B in self.bases:
+            if s_ == self.knots_leaf.get(B):
+                return self.stored_kind(a[self.cu[B]]), B, f"`{s_}`"
+        if isinstance(leaf, ast.Call) and src(leaf.func) == "make_knots":
+            try:
+                formals = [x.arg for x in self.smod.func("make_knots").args.args]
+            except AnalysisError:
+                return None, None, ""
+            b = agree.bind_call(leaf, formals)
+            if b is None or len(formals) < 3 or formals[0] not in b or formals[2] not in b:
+                return None, None, ""
+            B = next((B_ for B_ in self.bases if src(b[formals[0]]).startswith(B_ + ".") and src(b[formals[0]]).endswith("breaks")), None)
+            if B is None or not a[self.cu[B]]:
+                return None, B, ""
+            pv = self.truth(b[formals[2]], a)
+            if pv is None and isinstance(b[formals[2]], ast.Attribute) and src(b[formals[2]]) in a:
+                pv = a[src(b[formals[2]])]
+            text = f"`{s_[:90]}`"
+            if pv is None:
+                return None, B, text
+            if a[self.per[B]]:
+                return ("full" if pv else None), B, text
+            if pv:
+                return "wrapped", B, text
+            return ("clamped" if self.make_knots_clamps() else None), B, text
+        return None, None, ""
+
+
+def family_analysis(fm, q, site, sigs):
+    """-> (verdict of the dispatch test, text), {(routine, formal): (verdict, text)} for the knots parameters of both arms"""
+    roles = {f_: w.rsplit(".", 1)[0] for f_, w in _roles(q).items() if w.endswith(".knots")}
+    out = {}
+    if not fm.ok:
+        return (None, "constructor / properties of the bases not followed"), out
+    asg = fm.assignments()
+    tverdict, ttext = True, "the fast path is taken only when every basis of the spline is cubic uniform"
+    for arm, is_fast in ((site["fast"], True), (site["general"], False)):
+        sig = sigs.get(arm["name"])
+        fam = _family(arm["name"])[0]
+        if sig is None or fam is None:
+            continue
+        b = agree.bind_call(ast.Call(func=ast.Name(id=arm["name"], ctx=ast.Load()), args=arm["args"], keywords=arm["keywords"]),
+                            [x[0] for x in sig])
+        if b is None:
+            continue
+        for f_, B in roles.items():
+            if f_ not in b:
+                continue
+            verdict, text = True, ""
+            for a, certain in asg:
+                tv = fm.truth(site["test"], a)
+                if tv is None:
+                    verdict, text = (None, f"the dispatch test `{src(site['test'])}` is not decided {fm.describe(a)}") if verdict else (verdict, text)
+                    tverdict, ttext = (None, text) if tverdict else (tverdict, ttext)
+                    continue
+                if tv != is_fast:
+                    continue
+                if is_fast and not all(a[fm.cu[B_]] for B_ in fm.bases) and tverdict is not False and certain:
+                    tverdict = False
+                    ttext = (f"`{src(site['test'])}` takes the fast path {fm.describe(a)}: `{arm['name']}` reads the knot array of every "
+                             "dimension as (xmin, xmax, dx, ncells)")
+                leaf = fm.pick(b[f_], a)
+                if leaf is None:
+                    verdict, text = (None, f"`{src(b[f_])[:60]}` is not resolved {fm.describe(a)}") if verdict else (verdict, text)
+                    continue
+                kind, KB, ktext = fm.knots_kind(leaf, a)
+                via = "" if src(leaf) == src(b[f_]) else f" (`{src(b[f_])}`)"
+                bad = None
+                if KB is not None and KB != B:
+                    bad = f"`{f_}` of `{arm['name']}` receives {ktext}{via}, the knots of the other dimension"
+                elif kind is None:
+                    verdict, text = (None, f"`{src(leaf)[:70]}`{via} is not a recognised knot array {fm.describe(a)}") if verdict else (verdict, text)
+                    continue
+                elif fam == "cu_" and kind != "compact":
+                    bad = (f"{fm.describe(a)}, `{f_}` of `{arm['name']}` receives {ktext}{via}, a knot sequence, which the cubic-uniform routine "
+                           "reads as (xmin, xmax, dx, ncells)")
+                elif fam == "nu_" and kind == "compact":
+                    bad = (f"{fm.describe(a)}, `{f_}` of `{arm['name']}` receives {ktext}{via}, the compact array (xmin, xmax, dx, ncells) of a "
+                           "cubic-uniform basis, which the general routine reads as a knot sequence")
+                elif fam == "nu_" and kind in ("clamped", "wrapped"):
+                    how = ("repeats the end points (clamped knots) when the space is not periodic" if kind == "clamped" else
+                           "continues the knots by periodicity although the space is not periodic")
+                    bad = (f"{fm.describe(a)}, `{f_}` of `{arm['name']}` receives {ktext}{via}: make_knots {how}, but the functions of a "
+                           "non-periodic cubic-uniform space (as evaluated by the cu_ routines, Spline1D and the interpolators) are the cardinal "
+                           "cubic B-splines on equidistant knots continued three cells past each end, so the value returned is that of "
+                           "another function than the one the coefficients define")
+                if bad:
+                    if certain:
+                        verdict, text = False, bad
+                        break
+                    verdict, text = (None, bad + " - unless a precondition of the constructor that was not decided excludes this case") \
+                        if verdict else (verdict, text)
+            out[(arm["name"], f_)] = (verdict, text)
+    return (tverdict, ttext), out
+
+
 def _roles(q):
     """formal of the kernel -> canonical source of the actual expected from the entry point"""
     if q.startswith("Spline1D"):
@@ -823,9 +1264,11 @@ def _roles(q):
             "coeffs": "self._coeffs"}
 
 
-def check_site(chk, q, smod, site, sigs, flow, fn):
+def check_site(chk, q, smod, site, sigs, flow, fn, fm=None):
     """one place where an entry point hands over to a kernel of one of the two families"""
     node, test, fast, gen = site["node"], site["test"], site["fast"], site["general"]
+    (fam_test, fam_test_text), fam_knots = family_analysis(fm, q, site, sigs) if fm is not None else ((None, ""), {})
+    site["family"] = (fam_test, fam_knots)
     label = f"{fast['name']}/{gen['name']}"
     pa, sa = _family(fast["name"])
     pb, sb = _family(gen["name"])
@@ -852,10 +1295,19 @@ def check_site(chk, q, smod, site, sigs, flow, fn):
             why.append("argument lists of the two arms are written differently and cannot be matched to the signatures")
         else:
             diff = [f_ for f_ in sorted(set(ba) | set(bb)) if src(ba.get(f_)) != src(bb.get(f_))]
-            if diff:
+            # a knot array may legitimately differ between the arms (compact description / knot sequence of the same basis): the family
+            # analysis decides these; every other parameter must receive the same actual
+            kn = [f_ for f_ in diff if _roles(q).get(f_, "").endswith(".knots")]
+            kn_verdicts = [fam_knots.get((arm["name"], f_), (None, ""))[0] for f_ in kn for arm in (fast, gen)]
+            rest = [f_ for f_ in diff if f_ not in kn]
+            text = "the two families receive different arguments: " + ", ".join(
+                f"`{f_}` <- `{src(ba.get(f_))}` / `{src(bb.get(f_))}`" for f_ in diff)
+            if rest or any(v is False for v in kn_verdicts):
                 ok = False
-                why.append("the two families receive different arguments: " + ", ".join(
-                    f"`{f_}` <- `{src(ba.get(f_))}` / `{src(bb.get(f_))}`" for f_ in diff))
+                why.append(text)
+            elif any(v is None for v in kn_verdicts):
+                ok = None if ok else ok
+                why.append(text + " (knot arrays whose content on each kind of space is not followed)")
     if fa is None or fb is None:
         ok = None if ok else ok
         why.append("signature of an evaluator not found")
@@ -875,8 +1327,12 @@ def check_site(chk, q, smod, site, sigs, flow, fn):
                 test.attr not in ("cubic_uniform", "_cubic_uniform_splines"):
             bad = (f"the fast path is chosen by `{ts}`, not by the family of the spline's own basis: a basis that stores "
                    "(xmin, xmax, dx, ncells) instead of a knot vector can reach the general routine, or the reverse")
-    chk.pat("E1-dispatch-test", node, ts, ts in own or ts.replace("._cubic_uniform_splines", ".cubic_uniform") in own,
-            "the fast path is taken iff the spline's own basis is cubic uniform", bad, file=U.SPLINES, func=q, nontrivial=False)
+    own_test = ts in own or ts.replace("._cubic_uniform_splines", ".cubic_uniform") in own
+    if not own_test and bad is None and fam_test is False:
+        bad = fam_test_text
+    chk.pat("E1-dispatch-test", node, ts, own_test or (bad is None and fam_test is True),
+            "the fast path is taken iff the spline's own basis is cubic uniform" if own_test else fam_test_text, bad,
+            file=U.SPLINES, func=q, nontrivial=False)
     # argument roles (through the kernel's own signature: positional or keyword)
     for arm in (fast, gen):
         sig = sigs.get(arm["name"])
@@ -901,6 +1357,12 @@ def check_site(chk, q, smod, site, sigs, flow, fn):
             # private spellings of the same attribute
             got = re.sub(r"\._(knots|degree)$", r".\1", got)
             got = "self._coeffs" if got == "self.coeffs" else got
+            fv = fam_knots.get((arm["name"], f_))
+            if fv is not None and fv[0] is True:
+                continue            # on every kind of space this arm is taken for, the parameter receives the knot array of its basis
+            if fv is not None and fv[0] is False:
+                wrong.append(fv[1])
+                continue
             if got == want:
                 continue
             m_ = re.fullmatch(r"self\._basis(\d?)\.(\w+)", got)
@@ -1010,6 +1472,92 @@ def find_sites(body):
     return sites, loose
 
 
+def _collocation_arms_flow(cm, arm_f, arm_g):
+    """data flow of the two arms of collocation_matrix, whatever the names and the containers: the span search of a family receives the
+    description of the knots of that family and the evaluation point of the row, and its result goes to the basis routine of the same family.
+    -> (True, None) | (False, diagnosis) | None when the arms are not of this shape"""
+    formals = [a.arg for a in cm.args.args]
+    if len(formals) < 3:
+        return None
+    knots_f = "knots" if "knots" in formals else None
+    degree_f = "degree" if "degree" in formals else None
+    if knots_f is None or degree_f is None:
+        return None
+    # names unpacked from the compact description: position in (xmin, xmax, dx, ncells)
+    pos = {}
+    for st in ast.walk(cm):
+        if isinstance(st, ast.Assign) and isinstance(st.targets[0], ast.Tuple) and len(st.targets[0].elts) == 4 and src(st.value) == knots_f:
+            for k, el in enumerate(st.targets[0].elts):
+                if isinstance(el, ast.Name):
+                    pos[el.id] = k
+    for st in ast.walk(cm):
+        if isinstance(st, ast.Assign) and isinstance(st.targets[0], ast.Name) and isinstance(st.value, ast.Call) and src(st.value.func) == "int" \
+                and len(st.value.args) == 1 and isinstance(st.value.args[0], ast.Name) and pos.get(st.value.args[0].id) == 3:
+            pos[st.targets[0].id] = 3
+        if isinstance(st, ast.Assign) and isinstance(st.targets[0], ast.Name) and isinstance(st.value, ast.Subscript) and src(st.value.value) == knots_f \
+                and isinstance(st.value.slice, ast.Constant) and st.value.slice.value in (0, 1, 2, 3):
+            pos[st.targets[0].id] = st.value.slice.value
+
+    def point_of(call_st, arm):
+        """the element variable of the loop over the evaluation points that encloses the statement"""
+        for st in arm:
+            for lp in ast.walk(st):
+                if isinstance(lp, ast.For) and any(x is call_st for x in ast.walk(lp)):
+                    t = lp.target
+                    if isinstance(t, ast.Tuple) and len(t.elts) == 2 and isinstance(t.elts[1], ast.Name) and src(lp.iter).startswith("enumerate("):
+                        return t.elts[1].id
+                    if isinstance(t, ast.Name) and src(lp.iter) in formals:
+                        return t.id
+        return None
+
+    def stmts_with(arm, name):
+        out = []
+        for st in arm:
+            for x in ast.walk(st):
+                if isinstance(x, (ast.Assign, ast.Expr)) and isinstance(x.value, ast.Call) and src(x.value.func) == name:
+                    out.append(x)
+        return out
+    names4 = ["xmin", "xmax", "dx", "ncells"]
+    # cubic-uniform arm
+    fs, bs = stmts_with(arm_f, "cu_find_span"), stmts_with(arm_f, "cu_basis_funs")
+    if len(fs) != 1 or len(bs) != 1 or not isinstance(fs[0], ast.Assign):
+        return None
+    c1, c2 = fs[0].value, bs[0].value
+    if len(c1.args) != 5 or len(c2.args) != 3 or c1.keywords or c2.keywords:
+        return None
+    x_ = point_of(fs[0], arm_f)
+    for k, want in ((0, 0), (1, 1), (2, 2), (4, 3)):
+        a = c1.args[k]
+        got = pos.get(a.id) if isinstance(a, ast.Name) else None
+        if got is None:
+            return None
+        if got != want:
+            return False, (f"`{src(c1)[:70]}`: the parameter `{names4[want]}` of the uniform span search receives the entry `{names4[got]}` of the "
+                           "compact knot description (xmin, xmax, dx, ncells): the rows of the matrix are not the basis values at the points")
+    if x_ is None or not (isinstance(c1.args[3], ast.Name) and c1.args[3].id == x_):
+        return None
+    t = fs[0].targets[0]
+    if not (isinstance(t, ast.Tuple) and len(t.elts) == 2):
+        return None
+    if src(c2.args[0]) != src(t.elts[0]) or src(c2.args[1]) != src(t.elts[1]):
+        if src(c2.args[0]) == src(t.elts[1]) and src(c2.args[1]) == src(t.elts[0]):
+            return False, f"`{src(c2)[:60]}` receives the span and the offset of `{src(fs[0])[:60]}` in exchanged places"
+        return None
+    # general arm
+    fs, bs = stmts_with(arm_g, "nu_find_span"), stmts_with(arm_g, "nu_basis_funs")
+    if len(fs) != 1 or len(bs) != 1 or not isinstance(fs[0], ast.Assign):
+        return None
+    c1, c2 = fs[0].value, bs[0].value
+    if len(c1.args) != 3 or len(c2.args) != 5 or c1.keywords or c2.keywords:
+        return None
+    x_ = point_of(fs[0], arm_g)
+    if x_ is None or [src(a) for a in c1.args] != [knots_f, degree_f, x_]:
+        return None
+    if [src(a) for a in c2.args[:3]] != [knots_f, degree_f, x_] or src(c2.args[3]) != src(fs[0].targets[0]):
+        return None
+    return True, None
+
+
 def dispatch_and_wrap(chk):
     smod = chk.mod(U.SPLINES)
     cu, nu = chk.mod(U.CU), chk.mod(U.NU)
@@ -1017,12 +1565,15 @@ def dispatch_and_wrap(chk):
     for m in (cu, nu):
         for q, f in m.functions().items():
             sigs[q] = agree.signature(f)
+    fms, sites2d = {}, []
     for q in ("Spline1D.eval", "Spline1D.eval_vector", "Spline2D.eval", "Spline2D.eval_vector"):
         fn = smod.func(q)
         chk.functions.add(f"{U.SPLINES}:{q}")
         cls_name, meth = q.split(".")
         sp_ = Specialiser(smod, cls_name)
         body = sp_.run(meth)
+        if cls_name not in fms:
+            fms[cls_name] = FamilyModel(smod, cls_name)
         # the evaluation points reach the kernels as given: the spline is evaluated AT x, on the closed domain
         pts = [a.arg for a in fn.args.args if a.arg in ("x", "x1", "x2")]
         flow = PointFlow(pts, smod)
@@ -1038,7 +1589,9 @@ def dispatch_and_wrap(chk):
                file=U.SPLINES, func=q)
         sites, loose = find_sites(body)
         for s_ in sites:
-            check_site(chk, q, smod, s_, sigs, flow, fn)
+            check_site(chk, q, smod, s_, sigs, flow, fn, fms[cls_name])
+            if cls_name == "Spline2D":
+                sites2d.append(s_)
         for node, why in loose:
             unconditional = "without any test" in why or "the only evaluator" in why
             chk.ob("E1-dispatch", node, f"{q}: {src(node)[:50]}", False if unconditional else None,
@@ -1063,11 +1616,27 @@ def dispatch_and_wrap(chk):
                 isinstance(n.test.ops[0], (ast.NotEq, ast.IsNot)) and both(n.test.left, n.test.comparators[0]) and \
                 any(isinstance(x, ast.Raise) for x in n.body):
             ok = True
-    if not ok and not fam:
+    mixed_ok = None
+    if not ok:
+        # no requirement of equal families: then every hand-over must treat each dimension according to its own basis
+        verdicts = [v for s_ in sites2d for v in [s_.get("family", (None, {}))[0]] + [x[0] for x in s_.get("family", (None, {}))[1].values()]]
+        if sites2d and verdicts and all(v is True for v in verdicts):
+            mixed_ok = True
+        elif any(v is False for v in verdicts):
+            mixed_ok = False
+    if mixed_ok:
+        ok = True
+    if not ok and mixed_ok is False:
+        first = next((x[1] for s_ in sites2d for x in s_.get("family", (None, {}))[1].values() if x[0] is False), "")
+        bad = ("the constructor accepts two bases of different families (nothing requires them to agree), and the evaluation does not treat "
+               "each dimension according to its own basis: " + first)
+    elif not ok and not fam:
         bad = ("nothing in the constructor compares the families of the two bases: 2-D splines may mix a cubic-uniform and a general "
                "basis although the evaluation looks at one basis only, and the other dimension is then evaluated by the wrong routine")
     chk.pat("E1-dispatch-test", init2, "assert basis1.cubic_uniform == basis2.cubic_uniform", ok,
-            "a 2-D spline dispatches on one basis only, so both bases must be of the same family", bad, file=U.SPLINES, func="Spline2D.__init__")
+            "a 2-D spline dispatches on one basis only, so both bases must be of the same family" if mixed_ok is None else
+            "bases of different families are accepted and every hand-over gives each dimension the knot array its routine reads", bad,
+            file=U.SPLINES, func="Spline2D.__init__")
     # collocation matrix: span finder and basis routine of one family on each arm
     imod = chk.mod(U.INTERP)
     cm = imod.func("SplineInterpolator1D.collocation_matrix")
@@ -1091,6 +1660,8 @@ def dispatch_and_wrap(chk):
                               "cubic-uniform basis is (xmin, xmax, dx, ncells), the matrix rows are not the basis values")
         elif arm_cu and arm_nu and unpack:
             ok = True
+        elif _collocation_arms_flow(cm, arm_f, arm_g) is not None:
+            ok, bad = _collocation_arms_flow(cm, arm_f, arm_g)
         else:
             # same routines, other arguments: a recognised wrong form
             for arm, pre in ((arm_f, "cu_"), (arm_g, "nu_")):
